@@ -130,3 +130,14 @@ VARIANTS += [
          "                          for q in range(q_max + 1))")],
         "fire", "D3.2"),
 ]
+
+VARIANTS += [
+    V("s3-copy-reversed", "moptipyapps/binpacking2d/instance.py",
+      "    s3_minus_s3d: list[int] = s3.copy()",
+      "    s3_minus_s3d: list[int] = s3[::-1]", "fire", "D3.2",
+      "seed C03-pairing-takes-smallest-s3-first"),
+    V("silent-s3-copy-by-slice", "moptipyapps/binpacking2d/instance.py",
+      "    s3_minus_s3d: list[int] = s3.copy()",
+      "    s3_minus_s3d: list[int] = s3[:]", "silent", "",
+      "order-preserving copy"),
+]
